@@ -1943,7 +1943,13 @@ void ScriptVariable::operator/=(const ScriptVariable& value)
             throw ScriptVariableErrors::DivideByZero();
         }
 
-        m_data.long64Value = m_data.long64Value / value.m_data.long64Value;
+        if (value.m_data.long64Value == -1) {
+            // INT64_MIN / -1 overflows (SIGFPE on x86): negate with wrap-around like the other integer operators
+            m_data.long64Value = (int64_t)(0 - (uint64_t)m_data.long64Value);
+        }
+        else {
+            m_data.long64Value = m_data.long64Value / value.m_data.long64Value;
+        }
         break;
 
     case uint32_t(variableType_e::Vector + variableType_e::Integer * variableType_e::Max): // ( vector ) / ( int )
@@ -2041,7 +2047,13 @@ void ScriptVariable::operator%=(const ScriptVariable& value)
             throw ScriptVariableErrors::DivideByZero();
         }
 
-        m_data.long64Value = m_data.long64Value % value.m_data.long64Value;
+        if (value.m_data.long64Value == -1) {
+            // INT64_MIN % -1 traps like INT64_MIN / -1; the remainder of a division by -1 is always 0
+            m_data.long64Value = 0;
+        }
+        else {
+            m_data.long64Value = m_data.long64Value % value.m_data.long64Value;
+        }
         break;
 
     case uint32_t(variableType_e::Vector + variableType_e::Integer * variableType_e::Max): // ( vector ) % ( int )
